@@ -9,5 +9,6 @@ func main() {
 		"c01":   c01,
 		"c07":   c07,
 		"c08":   c08,
+		"c08child": containChild,
 	})
 }
